@@ -64,7 +64,7 @@ func init() {
 			}
 			if c.Index%4 == 1 {
 				// a reconcile pass over a multi-target transaction is cut short between two of its store writes
-				p.PStoreFault = 20
+				p.PStoreFault, p.PCreateFault = 10, 25
 			}
 			return p
 		})
@@ -96,6 +96,10 @@ func init() {
 			}
 			if c.Index%4 == 1 {
 				p.Targets, p.Paths = []string{"t1"}, "basic"
+			}
+			if c.Index%4 == 2 {
+				// multi-target changes and rollbacks whose reconcile passes are cut short by transient store errors
+				p.PMulti, p.PStoreFault, p.PCreateFault = 70, 10, 25
 			}
 			return p
 		})
